@@ -2,6 +2,8 @@ import Cutadapt.Proofs.KmerShiftAnd
 import Cutadapt.Proofs.KmerChunks
 import Cutadapt.Proofs.KmerPigeonhole
 import Cutadapt.Proofs.LocateSpec
+/-! From the tables of `create_positions_and_kmers` to the verdict of `kmers_present`: the chunks of the whole adapter are
+    searched in the whole read, so a full-length alignment within tolerance is never rejected (C07, partial theorem). -/
 namespace Cutadapt.Kmer
 open Cutadapt Cutadapt.Spec Cutadapt.Align Cutadapt.Adapters Cutadapt.Generated
 
@@ -464,8 +466,8 @@ namespace Cutadapt.Kmer
 open Cutadapt Cutadapt.Spec Cutadapt.Align Cutadapt.Adapters Cutadapt.Generated
 
 /-- the statement of the aligner's soundness theorem (C01), taken as a hypothesis here so that the two compose -/
-def LocateSound (cfg : Cfg) : Prop :=
-  ∀ ref query as ae rs re sc e, locate cfg ref query = some (as, ae, rs, re, sc, e) →
+def LocateSound (cfg : Cfg) (m : Nat) : Prop :=
+  ∀ ref query as ae rs re sc e, ref.length = m → locate cfg ref query = some (as, ae, rs, re, sc, e) →
     SoundResult cfg ref query as ae rs re e
 
 theorem seg_getElem? {xs : List α} {a b i : Nat} {c : α} (h : (seg xs a b)[i]? = some c) : xs[a + i]? = some c := by
@@ -506,6 +508,9 @@ theorem chunk_occurs_of_full_match (cfg : Cfg) (ref fin : Bytes) (g : UInt8 → 
   · have h1 := hocc.1
     rw [hr, seg_length] at h1
     simp only [List.length_map] at h1
+    have h2 := hs.h_rs
+    have h3 := hs.h_re
+    simp only [List.length_map] at h3
     omega
   · intro i hi
     obtain ⟨a, c, ha, hc, hac⟩ := hocc.2 i (by simpa using hi)
@@ -522,9 +527,106 @@ theorem chunk_occurs_of_full_match (cfg : Cfg) (ref fin : Bytes) (g : UInt8 → 
       rw [← hflat]; exact List.mem_flatten.mpr ⟨k, hk_mem, List.mem_of_getElem? ha0⟩
     obtain ⟨hr0, hru⟩ := href a0 ha_ref
     obtain ⟨hf0, hf1⟩ := hfin c1 (List.mem_of_getElem? hc1)
-    refine ⟨a0, c1, ha0, by rw [← Nat.add_assoc]; exact hc1, ?_⟩
+    refine ⟨a0, c1, ha0, by rw [Nat.add_assoc]; exact hc1, ?_⟩
     rcases hg with hg | hg
     · subst hg; exact rel_transfer cfg a0 c1 hr0 hru hf0 hf1 hac
     · subst hg; exact rel_transfer_upper cfg a0 c1 hr0 hru hf0 hf1 hac
+
+end Cutadapt.Kmer
+
+namespace Cutadapt.Kmer
+open Cutadapt Cutadapt.Spec Cutadapt.Align Cutadapt.Adapters Cutadapt.Generated
+
+/-! ### assembling: full-length matches of adapters with an internal search set survive the prefilter -/
+
+/-- side conditions on the adapter (all decidable for a concrete adapter except monotonicity of `thr`, which holds for
+    `thr L = ⌊fl(L · rate)⌋`): characters are non-NUL and upper-case, `⌊rate·m⌋ < m` (implied by rate < 1), overlap ≥ 1 -/
+structure PartialSide (a : Adapter) : Prop where
+  seq_ok : ∀ c ∈ a.seq, c ≠ 0 ∧ tr upperTable c = c
+  thr_mono : ∀ x y, x ≤ y → a.thr x ≤ a.thr y
+  thr_lt : a.thr a.seq.length + 1 ≤ a.seq.length
+  overlap_pos : 1 ≤ a.minOverlap
+
+theorem makeKmerFinder_full (a : Adapter) (hside : PartialSide a) (s fin : Bytes) (g : UInt8 → UInt8)
+    (hg : g = id ∨ g = asciiUpper) (b f : Bool) (flags : Nat)
+    (hs_ok : ∀ c ∈ s, c ≠ 0 ∧ tr upperTable c = c) (hs_len : s.length = a.seq.length)
+    (hfin : ∀ c ∈ fin, c ≠ 0 ∧ c < 128) (beyond : Bytes)
+    (rs re e : Nat) (hres : SoundResult (alignerCfg a flags) s (fin.map g) 0 s.length rs re e) :
+    kmersPresent (makeKmerFinder a s b f true) fin beyond = true := by
+  unfold makeKmerFinder
+  split
+  · rfl
+  · rename_i entries hentries
+    split
+    · rfl
+    · rename_i ms hms
+      have hthr : (alignerCfg a flags).thr s.length + 1 ≤ s.length := by
+        have := hside.thr_lt; rw [hs_len]; exact this
+      have hic : 1 ≤ (alignerCfg a flags).indelCost := by
+        simp only [alignerCfg, mkCfg, indelCost]
+        split <;> decide
+      obtain ⟨k, hk, i, hocc⟩ := chunk_occurs_of_full_match (alignerCfg a flags) s fin g hg hs_ok hfin hic
+        hside.thr_mono hthr rs re e hres
+      exact kmersPresent_of_chunk hentries hside.overlap_pos (by rw [hs_len]; exact hside.thr_lt) hms
+        a.adapterWildcards a.readWildcards fin beyond k hk i hocc
+
+def hasInternal : AdapterType → Bool
+  | .front | .rightmostFront | .back | .anywhere => true
+  | _ => false
+
+theorem prefilter_keeps_full_matches (a : Adapter) (hty : hasInternal a.ty = true) (hside : PartialSide a)
+    (hsound : LocateSound (alignerCfg a (flagsOf a)) a.seq.length) (read beyond : Bytes)
+    (hread : ∀ c ∈ read, c ≠ 0 ∧ c < 128)
+    (mt : SingleMatch) (hm : matchTo a read = some mt) (h0 : mt.astart = 0) (h1 : mt.astop = a.seq.length) :
+    kmersPresent (finderFor a) (finderInput a read) beyond = true := by
+  have hmpos : 1 ≤ a.seq.length := by have := hside.thr_lt; omega
+  unfold matchTo at hm
+  split at hm
+  · cases hm
+  · rename_i as ae rs re score errors hal
+    cases hm
+    simp only at h0 h1
+    subst h0
+    cases hty' : a.ty <;> rw [hty'] at hty <;> simp only [hasInternal] at hty <;> try (cases hty)
+    · -- front
+      simp only [alignment, hty'] at hal
+      have hres := hsound _ _ _ _ _ _ _ _ rfl hal
+      rw [h1] at hres
+      simp only [finderFor, finderArgs, finderInput, hty']
+      refine makeKmerFinder_full a hside a.seq read id (Or.inl rfl) _ _ (flagsOf a) hside.seq_ok rfl hread beyond rs re errors ?_
+      simpa using hres
+    · -- rightmost front
+      simp only [alignment, hty'] at hal
+      split at hal
+      · cases hal
+      · rename_i rs' re' qs qe sc er hloc
+        simp only [Option.some.injEq, Prod.mk.injEq] at hal
+        obtain ⟨ha0, ha1, _, _, _, _⟩ := hal
+        have hres := hsound _ _ _ _ _ _ _ _ (by simp) hloc
+        have hb1 := hres.h_as
+        have hb2 := hres.h_ae
+        simp only [List.length_reverse] at hb2
+        have e1 : re' = a.seq.reverse.length := by simp only [List.length_reverse]; omega
+        have e2 : rs' = 0 := by omega
+        subst e2
+        rw [e1] at hres
+        simp only [finderFor, finderArgs, finderInput, hty']
+        refine makeKmerFinder_full a hside a.seq.reverse read.reverse id (Or.inl rfl) _ _ (flagsOf a) ?_ (by simp) ?_ beyond qs qe er ?_
+        · intro c hc; exact hside.seq_ok c (List.mem_reverse.mp hc)
+        · intro c hc; exact hread c (List.mem_reverse.mp hc)
+        · simpa using hres
+    · -- back
+      simp only [alignment, hty'] at hal
+      have hres := hsound _ _ _ _ _ _ _ _ rfl hal
+      rw [h1] at hres
+      simp only [finderFor, finderArgs, finderInput, hty']
+      refine makeKmerFinder_full a hside a.seq read id (Or.inl rfl) _ _ (flagsOf a) hside.seq_ok rfl hread beyond rs re errors ?_
+      simpa using hres
+    · -- anywhere
+      simp only [alignment, hty'] at hal
+      have hres := hsound _ _ _ _ _ _ _ _ rfl hal
+      rw [h1] at hres
+      simp only [finderFor, finderArgs, finderInput, hty']
+      exact makeKmerFinder_full a hside a.seq read asciiUpper (Or.inr rfl) _ _ (flagsOf a) hside.seq_ok rfl hread beyond rs re errors hres
 
 end Cutadapt.Kmer
